@@ -10,6 +10,9 @@ from hpotk.graph import CsrIndexedGraphFactory  # noqa: E402
 from impl_graph import exn_name, mkarg  # noqa: E402
 
 
+BUILDS = [0]
+
+
 def build(case):
     g = CsrIndexedGraphFactory().create_graph([(TermId.from_curie('HP:2'), TermId.from_curie('HP:1'))])
     terms = []
@@ -18,9 +21,17 @@ def build(case):
             terms.append(MinimalTerm.create_minimal_term(tid, name, alts, obsolete))
         else:
             terms.append(Term.create_term(tid, name, alts, obsolete, None, None, None, None))
-    if case['kind'] == 'minimal':
-        return terms, create_minimal_ontology(g, terms, 'v1')
-    return terms, create_ontology(g, terms, 'v1')
+    # the ontology gets its own sequence object (a list or a tuple, by turns); a list is edited by the caller right after the
+    # ontology was created - another term appended, the first one removed: the ontology must keep what it was created from
+    BUILDS[0] += 1
+    given = list(terms) if BUILDS[0] % 3 else tuple(terms)
+    o = create_minimal_ontology(g, given, 'v1') if case['kind'] == 'minimal' else create_ontology(g, given, 'v1')
+    if isinstance(given, list):
+        mk = MinimalTerm.create_minimal_term if case['kind'] == 'minimal' else (lambda *a: Term.create_term(*a, None, None, None, None))
+        given.append(mk('ZZZ:99999', 'added by the caller afterwards', ['ZZZ:99998'], False))
+        if len(given) > 1:
+            del given[0]
+    return terms, o
 
 
 def do_call(terms, o, c):
